@@ -10,6 +10,7 @@ import ms as MS
 import rw as RW
 import mg as MG
 import sl as SL
+import sc as SC
 
 CONTAINERS = "emap 0.0.13 / micromap 0.0.19 / microstack 0.0.7 as audited (DESIGN §3)"
 HAND = "hand argument DESIGN §5.0: rules ⇒ invariants I1–I3 ⇒ statement"
@@ -197,5 +198,14 @@ PROPS = {
         "explanation": "ND1 hash-order taint (floor 3 sources), ND2 other nondeterminism sources, ND3 N / capacity only as bounds.",
         "trusted": [RUSTC, CONTAINERS],
         "assumptions": ["sequences that fit within the limits of both configurations"],
+    },
+    "C14": {
+        "claim": "Decides SC1–SC4: in the per-command function the three graph calls are control-dependent on the command name (capture 1 of the command text) being equal to ADD / BIND / PUT and take add(id(arg0)), bind(id(arg0), id(arg1), Label::from_str(arg2)), put(id(arg0), data(arg1)) on the given graph, with no other graph mutation in the closure of deploy_to; one next_id per variable name (NX5); the returned count is incremented exactly once on the success edge of each deployed command and commands run in split(';') order through order-preserving adaptors only; no panicking operation on script-derived data outside an audited table (Regex::new on literals, captures that always participate, hex-pair parsing dominated by the hex-pairs regex). Does not decide the grammar itself (what the regular expressions accept: comment stripping, whitespace, hex formatting).",
+        "note": "Trusted: rustc front end + engine; regex crate semantics for the audited exceptions. The grammar (language accepted by the four regular expressions) is not code shape and is not decided; e.g. a trailing comment without newline is not stripped (DESIGN §4).",
+        "technique": "MIR dispatch-table agreement (guard + argument provenance) + error-discipline rule",
+        "rules": [("SC1", SC.sc1), ("SC2", NX.nx5), ("SC3", SC.sc3), ("SC4", SC.sc4)],
+        "explanation": "SC1 dispatch table (floor 3), SC2 variables, SC3 count and order, SC4 panicking operations vs audited table (floor 8).",
+        "trusted": [RUSTC, "regex crate"],
+        "assumptions": ["programs within the capacity limits and preconditions"],
     },
 }
